@@ -314,3 +314,31 @@ def spell_align(fn, ref_src: str) -> int:
     new = al.block(cb, rb)
     fn.body = (doc + new) or fn.body
     return al.n
+
+
+def changed_lines(ref_src: str, now_fn) -> int:
+    """number of source lines (canonical spelling, no docstring / annotations / decorators) in which the function differs from its reference form: the larger of
+    the removed and the added line counts of a line diff"""
+    import difflib
+    try:
+        r = ast.parse(ref_src).body[0]
+    except (SyntaxError, IndexError):
+        return 10 ** 6
+
+    def lines(fn):
+        fn = _canon_fn(_alpha(fn))
+        b = fn.body
+        if b and isinstance(b[0], ast.Expr) and isinstance(b[0].value, ast.Constant) and isinstance(b[0].value.value, str):
+            fn.body = b[1:] or [ast.Pass()]
+        fn.decorator_list = []
+        fn.returns = None
+        for a in fn.args.args + fn.args.kwonlyargs + fn.args.posonlyargs:
+            a.annotation = None
+        return ast.unparse(fn).split("\n")
+    a, b = lines(r), lines(now_fn)
+    rem = add = 0
+    for tag, i1, i2, j1, j2 in difflib.SequenceMatcher(None, a, b, autojunk=False).get_opcodes():
+        if tag != "equal":
+            rem += i2 - i1
+            add += j2 - j1
+    return max(rem, add)
